@@ -205,6 +205,8 @@ def apply(it, fn, args, dest_ty, term, caller, depth):
         if a.is_conc() and b.is_conc():
             return a.like(val=min((1 << a.w) - 1, a.val + b.val))
         return bv.top_int(a.w, a.signed)
+    if path in ("core::hint::must_use", "core::hint::black_box", "core::convert::identity") and len(args) == 1:
+        return args[0]
     if path in ("core::intrinsics::cold_path", "core::intrinsics::assume", "core::hint::assert_unchecked",
                 "core::intrinsics::assert_inhabited", "core::intrinsics::ub_checks"):
         return Tup([]) if path != "core::intrinsics::ub_checks" else mkbool(False)
@@ -310,8 +312,10 @@ def apply(it, fn, args, dest_ty, term, caller, depth):
             return a
     if name == "into_iter" and fn.get("trait", "").endswith("IntoIterator") and len(args) == 1:
         a = args[0]
-        if isinstance(a, Adt) and a.name in ("core::ops::Range", "core::ops::range::Range", "std::ops::Range"):
+        if isinstance(a, Adt) and a.name in ("core::ops::Range", "core::ops::range::Range", "std::ops::Range", "std::ops::RangeFrom", "core::ops::RangeFrom"):
             return a
+        if isinstance(a, Ref) and isinstance(it.read(a.cell, a.path), IterV):
+            return a        # IntoIterator for &mut I where I: Iterator — the same iterator, advanced in place
         if isinstance(a, Opaque) and it.h is not None:
             r = it.h.into_iter(it, a, dest_ty)
             if r is not None:
@@ -358,6 +362,10 @@ def apply(it, fn, args, dest_ty, term, caller, depth):
     # ---- Range<int> iteration
     if name == "next" and len(args) == 1 and isinstance(args[0], Ref):
         v = it.read(args[0].cell, args[0].path)
+        if isinstance(v, Adt) and v.name.endswith("ops::RangeFrom") and isinstance(v.fields[0], Int):
+            s0 = v.fields[0]
+            it.write(args[0].cell, args[0].path, Adt(v.name, 0, [bv.binop("Add", s0, s0.like(val=1))]))
+            return some(s0)
         if isinstance(v, Adt) and v.name.endswith("ops::Range") or (isinstance(v, Adt) and v.name.endswith("range::Range")):
             s, e = v.fields
             if isinstance(s, Int) and isinstance(e, Int):
@@ -847,6 +855,21 @@ def iter_model(it, fn, name, args, dest_ty, term, caller, depth):
         if isinstance(a, (VecV, Arr)):
             cell = Cell(a, "into_iter-owned")
             return IterV("owned", (Ref(cell), 0, len(a.elems)))
+    # ---- `by_ref()` / adapters applied to `&mut UserIterator`: the iterator behind the reference, advanced in place
+    if (tr.endswith("iter::Iterator") or tr.endswith("iterator::Iterator")) and args and isinstance(args[0], Ref) and name != "next":
+        tgt = it.read(args[0].cell, args[0].path)
+        if isinstance(tgt, Adt) and not tgt.name.endswith("ops::Range") and not tgt.name.endswith("ops::RangeFrom"):
+            nb = user_next_body(it, fn)
+            tg = (fn.get("targs") or [""])[0]
+            if nb is None and tg.startswith("&mut "):
+                fn2 = dict(fn)
+                fn2["targs"] = [tg[5:]] + list((fn.get("targs") or [])[1:])
+                nb = user_next_body(it, fn2)
+            if nb is not None and not args[0].path:
+                if name == "by_ref":
+                    return args[0]
+                if name in ITER_ADAPTERS + ("collect", "count", "for_each", "fold", "last", "sum"):
+                    args = [IterV("user", (args[0].cell, nb))] + list(args[1:])
     # ---- user-defined iterator structs: wrap them so that adapters / collect drive their own `next`
     if (tr.endswith("iter::Iterator") or tr.endswith("iterator::Iterator")) and args and isinstance(args[0], Adt) \
             and not args[0].name.endswith("ops::Range") and name in ITER_ADAPTERS + ("collect", "count") and name != "next":
@@ -898,11 +921,21 @@ def iter_model(it, fn, name, args, dest_ty, term, caller, depth):
             return NotImplemented
         if name in ("next", "next_back") and len(args) == 1 and isinstance(args[0], Ref):
             cur = it.read(args[0].cell, args[0].path)
+            if isinstance(cur, Ref) and isinstance(it.read(cur.cell, cur.path), IterV):
+                args = [cur]
+                cur = it.read(cur.cell, cur.path)
             if isinstance(cur, IterV):
                 new, item = iter_next(it, cur, term, caller, depth, back=(name == "next_back"))
                 it.write(args[0].cell, args[0].path, new)
                 return item
         if name == "collect" and args and (isinstance(args[0], IterV) or (isinstance(args[0], Adt) and args[0].name.endswith("ops::Range"))):
+            dty = dest_ty or ""
+            is_deque = dty.startswith("std::collections::VecDeque<")
+            is_vec = dty.startswith("std::vec::Vec<") or dty.startswith("std::string::String") or dty.startswith("std::boxed::Box<[") or dty.startswith("smallvec::SmallVec<")
+            is_set = dty.startswith("std::collections::HashSet<") or dty.startswith("std::collections::BTreeSet<")
+            if not (is_deque or is_vec or is_set):
+                # other targets (maps, Option<…>, Result<…>, tuples) are not sequences: leave them to a harness / report unsupported
+                return NotImplemented
             cur = args[0]
             out = []
             for _ in range(100000):
@@ -910,7 +943,13 @@ def iter_model(it, fn, name, args, dest_ty, term, caller, depth):
                 if item.variant == 0:
                     break
                 out.append(item.fields[0])
-            return VecV(out)
+            by_val = not (dty.startswith("std::vec::Vec<&") or dty.startswith("std::collections::VecDeque<&"))
+            if by_val:
+                out = [deref_val(it, x) if isinstance(x, Ref) and False else x for x in out]
+            if is_set:
+                # an opaque set that remembers what went in (harnesses answer membership; concrete integer sets are answered by models2)
+                return Opaque(dty, {"collected-set"}, {"items": out})
+            return DequeV(out) if is_deque else VecV(out)
         if name in ("fold",) and len(args) == 3 and (isinstance(args[0], IterV) or (isinstance(args[0], Adt) and args[0].name.endswith("ops::Range"))):
             cur = args[0]
             acc = args[1]
@@ -1019,6 +1058,11 @@ def iter_model(it, fn, name, args, dest_ty, term, caller, depth):
 def iter_next(it, cur, term, caller, depth, back=False):
     """returns (advanced iterator, Option item)"""
     k = cur.kind if isinstance(cur, IterV) else None
+    if isinstance(cur, Adt) and cur.name.endswith("ops::RangeFrom"):
+        s0 = cur.fields[0]
+        if back:
+            raise Unsupported("next_back on RangeFrom")
+        return Adt(cur.name, 0, [bv.binop("Add", s0, s0.like(val=1))]), some(s0)
     if isinstance(cur, Adt):  # Range<int>
         s, e = cur.fields
         lt = bv.compare("Lt", s, e)
@@ -1069,6 +1113,11 @@ def iter_next(it, cur, term, caller, depth, back=False):
             return cur, none()
         ln = min(size, n - pos)
         return IterV(k, (ref, pos + ln, n, size)), some(Ref(ref.cell, ref.path, ref.off + pos, ln))
+    if k == "from_fn":
+        item = call_callable(it, cur.a[0], [], term, caller, depth)
+        if not (isinstance(item, Adt) and item.variant is not None):
+            raise Undecided("iter::from_fn closure returned %r" % (item,))
+        return cur, item
     if k == "user":
         cell, nb = cur.a
         item = it.call_body(nb, [Ref(cell)], depth + 1)
@@ -1256,6 +1305,8 @@ def drain_iter(it, src, term=None, caller=None, depth=0):
     """all items of an abstract iterator / collection value, or None"""
     if isinstance(src, (VecV, Arr, DequeV)):
         return list(src.elems)
+    if isinstance(src, Adt) and src.name.endswith("option::Option") and src.variant is not None:
+        return list(src.fields) if src.variant == 1 else []
     if isinstance(src, IterV) or (isinstance(src, Adt) and src.name.endswith("ops::Range")):
         out = []
         cur = src
